@@ -744,7 +744,12 @@ class _Universe:
                 t = {"k": "bool"}
             elif cls == "array":
                 t = None
-                if self.coin(0.3): t = self.t_ref(False, lambda d: self.jclass(d) == "array")
+                if self.has("tuple") and self.coin(0.25):
+                    # two array branches told apart by their fixed length only (same leading item types)
+                    base = [self.t_scalar() for _ in range(3)]
+                    variants.append({"name": "V%d" % len(variants), "shape": "newtype", "t": {"k": "tuple", "ts": copy.deepcopy(base[:2])}})
+                    t = {"k": "tuple", "ts": base}
+                if t is None and self.coin(0.3): t = self.t_ref(False, lambda d: self.jclass(d) == "array")
                 if t is None and self.has("tuple") and self.coin(0.3):
                     t = {"k": "tuple", "ts": [self.t_scalar() for _ in range(r.randint(2, 3))]}
                 t = t or {"k": "vec", "t": self.t_scalar()}
